@@ -9,6 +9,8 @@ KEYS = [
     'parso.tree.Leaf.end_pos#ghost', 'parso.python.tree._LeafWithoutNewlines.end_pos#ghost',
     'parso.tree.Leaf.get_start_pos_of_prefix', 'parso.tree.BaseNode.get_start_pos_of_prefix',
     'parso.python.tree.PythonLeaf.get_start_pos_of_prefix', 'parso.python.tokenize._find_fstring_string',
+    # start positions the tokenizer helpers give their tokens (the closing quote of an f-string, the parts of an illegal name)
+    'parso.python.tokenize._close_fstring_if_necessary', 'parso.python.tokenize._split_illegal_unicode_name',
 ]
 
 
